@@ -27,16 +27,24 @@ P = {
  "C03": ("SM", "Theorems (Props/C03.v; SMP/WF, Preserve, StepInv, Reflect): every job is stored exactly once, every stored number is a "
          "job, locations name the holding buffer, flags agree with stores - preserved by EVERY applied transition with no side "
          "condition, hence in every reachable state and every micro-state under any action sequence, any fuel, any truncation setting "
-         "(C03_conservation_*), with reflection between the Prop invariant WFS and the extracted boolean wfs_b. " + TIE),
+         "(C03_conservation_*), with reflection between the Prop invariant WFS and the extracted boolean wfs_b; an AGV holds exactly "
+         "one job in TRANSIT and none otherwise (C03_agv_load_*, unconditional, SMP/Agv.v); a busy machine holds exactly one job, an "
+         "idle one none (C03_machine_holds_one_partial, corollary of the C01 invariant with its monitored side condition). " + TIE),
  "C04": ("Env", "Theorems (Props/C04.v; SMP/Decline, Atomic): env model - a done episode refuses steps (C04_done_raises), terminated and "
          "truncated are never both set (C04_exclusive), terminated iff the middleware result has no offers and all jobs are in output "
-         "buffers (C04_term_flag), the reported makespan is the clock set to the latest DONE end (C04_makespan_is_clock). The 'all "
-         "operations done' half of the iff is monitored (clause output_done_b), not proved. " + TIE +
+         "buffers (C04_term_flag), the reported makespan is the clock set to the latest DONE end (C04_makespan_is_clock); a job in an "
+         "OUTPUT buffer has all operations done in every reachable state, so a terminated episode has finished all work "
+         "(C04_output_done_partial, C04_terminated_all_done_partial; SMP/OutputDone.v, invariant carried with FE and the AGV-load "
+         "invariant) - PARTIAL: two side conditions on applied TRANSIT transitions (job not in process, job = the AGV's claim) are "
+         "hypotheses on the micro-log, evaluated by the extracted monitors on every transition the implementation applies. " + TIE +
          " env.step of the implementation is replayed on the env model; an independent reading of flags/makespan runs on every step; when "
          "the correspondence breaks a directed search (phased policies, zero-travel shops, truncation on) looks for a failing input."),
  "C05": ("SM", "Theorems (Props/C05.v): a successful step re-establishes the store and clock invariants, a failing step returns its "
          "input state (clean failure), offered transitions never fail validation (C05_no_validation_error). Liveness (every offered "
-         "action can be taken, the episode can always finish) is FALSE of the code: five genuine defects are recorded as known "
+         "action can be taken, the episode can always finish) is FALSE of the code and refuted by theorem: C05_refuted_step / "
+         "C05_refuted_reachable show, for a compiled document reached through the middleware, that accepting the offered action makes "
+         "state.step run out of EVERY fuel (lasso lemma SMP/Hang.v; the witness is replayed on the implementation on every run). "
+         "Five genuine defects are recorded as known "
          "findings (buffer-full raise, two deadlocks, non-terminating ordered standalone buffer, zero-division reward); the check "
          "classifies every abnormal episode end and reports anything not matching a listed finding. Termination itself is not a "
          "theorem (fuel-bounded model). " + TIE),
@@ -59,12 +67,15 @@ P = {
          "non-negative, no outage when none is due, release makes every record inactive and remembers its own end time, an OUTAGE "
          "component accepts only the release transition. " + TIE),
  "C11": ("SM", "Theorems (Props/C11.v; SMP/Offers): every offered transport/machine transition passes validation and names a ready job "
-         "(offers_are_valid). Absence of deadlock is FALSE of the code (two known findings with concrete histories); the check "
-         "classifies every dead end reached. " + TIE),
+         "(offers_are_valid). Absence of deadlock is FALSE of the code and refuted by theorem inside the property's configuration "
+         "class: C11_refuted (always-accept reaches a non-terminal state without offers; every further action raises, for every "
+         "fuel) and C11_refuted_hang; both witnesses are replayed on the implementation on every run. The check classifies every "
+         "dead end reached. " + TIE),
  "C12": ("SM", "Theorems (Props/C12.v; SMP/Clock, ClockStep, ClockMain): no transition moves the clock; the time machines used by the "
          "middleware never move it backwards and never past a pending completion; the clock invariant NO (nothing pending lies in the "
-         "past) holds in every live reachable state and micro-state, with reflection to the extracted clock_b. Known finding: a shifted "
-         "start time changes the behaviour of outages (absolute-time frequency). " + TIE),
+         "past) holds in every live reachable state and micro-state, with reflection to the extracted clock_b. Translation invariance "
+         "is refuted by theorem for instances with outages (C12_shift_refuted: same instance and action, start 0 vs 7, clocks 3 vs "
+         "8; witness replayed on the implementation on every run; known finding) and explored otherwise (paired runs). " + TIE),
  "C13": ("Seed", "Theorems (Props/C13.v; Seed/SeedModel, SMP/NoStoch): in the model of seeding/reset the k-th episode depends only on "
          "(seed, k), not on global RNG state or other environments (C13_reset_independent_of_global, C13_noninterference); instances "
          "without stochastic times are oracle-independent (C13_seed_irrelevant*). Tie: cross-process runs of the implementation with "
